@@ -183,11 +183,11 @@ def execute(case, order=None, bh_indices=None, twice=False, client=None):
             out['rej_again'] = digest(r2.outputs) + '|%s|%s' % (r2.n_sim, r2.threshold)
         models.RECORD['on'] = False
         smc = elfi.SMC(m['d'], batch_size=max(bs, 4), seed=seed)
-        r = smc.sample(6, quantiles=[0.5, 0.5], bar=False)
+        r = smc.sample(6, quantiles=[0.6, 0.6, 0.6], bar=False)
         out['smc'] = digest(r.outputs) + '|%s|%s|%s' % (r.n_sim, r.threshold, digest({'w': r.weights}))
         if twice:
             smc2 = elfi.SMC(m['d'], batch_size=max(bs, 4), seed=seed)
-            r = smc2.sample(6, quantiles=[0.5, 0.5], bar=False)
+            r = smc2.sample(6, quantiles=[0.6, 0.6, 0.6], bar=False)
             out['smc_again'] = digest(r.outputs) + '|%s|%s|%s' % (r.n_sim, r.threshold, digest({'w': r.weights}))
         # entry points: the batches a sampler consumed vs compute(i) restricted to the same outputs
         sub = [n for n in names if n in rej.output_names]
@@ -297,6 +297,13 @@ def run_shard(ctx):
             other.generate(2)
             elfi.Rejection(other['d'], batch_size=7, seed=(case['seed'] + 1) % (2 ** 31)).sample(3, n_sim=21, bar=False)
             elfi.SMC(other['d'], batch_size=10, seed=11).sample(5, quantiles=[0.5, 0.5], bar=False)
+            # ... and through the seed utilities other code in the process uses (an external-operation batch, a single derived seed)
+            from elfi.utils import get_sub_seed
+            get_sub_seed(case['k'] + 17, 0)
+            try:
+                elfi.tools.external_operation('echo {seed}')(random_state=np.random.RandomState(case['k']))
+            except Exception:
+                pass
             res['history'] = execute(case, twice=True)
             created = [p['name'] for p in case['spec']['params']]
             res['order_reversed'] = execute(case, order=created[::-1])
